@@ -31,6 +31,11 @@ def programs(tier, rnd: random.Random):
     for call in ("trap(0, RsV + 1);", "trap(RsV & 3, RtV * 2);", "set_usr_field(bundle, HEX_REG_FIELD_USR_OVF, RsV + RtV);",
                  "set_usr_field(bundle, HEX_REG_FIELD_USR_LPCFG, (RsV > RtV));", "fcirc_add(bundle, RxV, siV + 1, MuV, get_corresponding_CS(pkt, MuV));"):
         progs += ["{ %s }" % call, "{ RdV = RsV; %s }" % call, "{ if (RuV) { %s } }" % call, "{ %s ReV = RtV + 1; }" % call]
+    # several statements of the kinds that emit a fixed effect (cancel_slot, nop, empty statements, empty blocks) in ONE behaviour: every
+    # occurrence needs its own effect node (an effect variable is used exactly once)
+    progs += ["{ if (RsV) { RdV = 1; cancel_slot; } else { cancel_slot; } }", "{ if (RsV) { cancel_slot; } if (RtV) { cancel_slot; } }",
+              "{ if (RsV) { if (RtV) { cancel_slot; } else { RdV = 2; cancel_slot; } } else { cancel_slot; } }", "{ cancel_slot; RdV = RsV; cancel_slot; }",
+              "{ if (RsV) { ; } else { ; } ; }", "{ if (RsV) { {} } else { {} } {} }", "{ for (i = 0; i < 2; i++) { cancel_slot; } cancel_slot; }"]
     # every register alias in every access form: read, .new read, both in one statement, written, written and read back (each form has its own
     # declaration / operand-handle text in the emitted body)
     aliases = ["USR", "PC", "SP", "LR", "GP", "FP", "LC0", "LC1", "SA0", "SA1", "P3_0", "M0", "M1", "CS0", "CS1", "UPCYCLE", "PKTCOUNT", "UTIMER", "UGP",
